@@ -1,6 +1,7 @@
 package props
 
 import (
+	"sync"
 	"fmt"
 	"go/constant"
 	"go/token"
@@ -20,6 +21,10 @@ import (
 // Malformed per the specification: reserved bit 0 set [3.1.2-3]; will flag 0 with will QoS or will retain non-zero
 // [3.1.2-11/13/15]; will QoS 3 [3.1.2-14]; user-name flag 0 with password flag 1 [3.1.2-22].
 func (c *Ctx) connectFlagRefusals() {
+	// the fold configuration is package state: the variants of the thorough tier are analysed several at a time
+	foldMu.Lock()
+	defer foldMu.Unlock()
+	curFold = connectFold
 	c.R.Rule("T12-flag-refusals-within-spec", "the branches of the CONNECT decoder that depend on the connect-flags byte alone are folded for all 256 values (constant folding through the message's own getters); a value the specification allows must not reach an immediate error return.")
 	fn := c.P.Func("message", "ConnectMessage", "decodeMessage")
 	if fn == nil {
@@ -127,6 +132,9 @@ var connectFold = &flagFold{
 
 // curFold is the configuration in force (the rules set and restore it; the checker is single-threaded per property).
 var curFold = connectFold
+
+// foldMu serialises the rules that set curFold (connectFlagRefusals, headerByteRefusals).
+var foldMu sync.Mutex
 
 // refusesAtOnce: the block (through unconditional jumps) ends in a return whose error result is not the nil constant.
 func refusesAtOnce(blk *ssa.BasicBlock) bool {
@@ -476,9 +484,10 @@ func (c *Ctx) headerByteRefusals() {
 			return f.Pkg == sp && (recvNamed(f) == "header" || recvNamed(f) == "Type" || f.Signature.Recv() == nil)
 		},
 	}
-	old := curFold
+	foldMu.Lock()
+	defer foldMu.Unlock()
 	curFold = headerFold
-	defer func() { curFold = old }()
+	defer func() { curFold = connectFold }()
 
 	defFlags := func(t uint64) uint64 {
 		if t == 6 || t == 8 || t == 10 {
